@@ -490,6 +490,42 @@ def aggregation(chk, cls, active, released, roles):
             chk.bad(rule, cls.qual, "utilisation and allocation are not the same aggregate under the attribute swap", node=cls.node, stmt="sibling-symmetry")
 
 
+def orderable_sort(chk, cls, active, released, roles):
+    """O15.4 (sort): the steps never sort the children themselves, nor tuples that contain them, without a key: pools are
+    not orderable, so the first tie on the leading elements raises TypeError and ends the pool's service"""
+    prog = chk.program
+    rule = "O15.4"
+    n = 0
+    ok = True
+    for step, fi in sorted(roles.items()):
+        for c in ast.walk(fi.node):
+            is_sorted = isinstance(c, ast.Call) and (util.dotted(c.func) in ("sorted", "min", "max") or (isinstance(c.func, ast.Attribute) and c.func.attr == "sort"))
+            if not is_sorted:
+                continue
+            n += 1
+            chk.count()
+            if any(k.arg == "key" for k in c.keywords):
+                continue
+            src = c.args[0] if c.args else (c.func.value if isinstance(c.func, ast.Attribute) else None)
+            # what are the elements?  a comprehension whose element is a tuple mentioning the loop variable, or the child set itself
+            elems_are_children = src is not None and ("self." + active in util.unparse(src) or "self.children" in util.unparse(src)) and not isinstance(src, (ast.GeneratorExp, ast.ListComp))
+            tuple_with_child = False
+            if isinstance(src, (ast.GeneratorExp, ast.ListComp)) and isinstance(src.elt, ast.Tuple):
+                loop_vars = {x.id for g in src.generators for x in ast.walk(g.target) if isinstance(x, ast.Name)}
+                tuple_with_child = any(isinstance(e, ast.Name) and e.id in loop_vars for e in src.elt.elts)
+            if elems_are_children or tuple_with_child:
+                chk.bad(
+                    rule,
+                    fi.qual,
+                    "%s orders %s without a key: %s, and pools define no ordering -- TypeError on the first such comparison ends the pool's service" % (util.unparse(c.func), "tuples that contain the child itself" if tuple_with_child else "the children themselves", "two children with equal leading elements are compared by the child objects" if tuple_with_child else "the children are compared directly"),
+                    node=c,
+                    stmt="sort-without-key",
+                )
+                ok = False
+    if ok:
+        chk.ok(rule, cls.qual, "no step orders children (or tuples containing them) without a key (%d sort sites)" % n, node=cls.node)
+
+
 def demand_storage(chk, cls, active, released, roles):
     """O15.6: a demand write is kept and is what the adjustment cycle reads back"""
     prog = chk.program
@@ -541,5 +577,5 @@ def run(chk):
     from . import c09
 
     chk.guard("O9.5", FACTORY, c09.factory_run, chk)
-    for rule, fn in (("O15.1", ownership), ("O15.2", release_atomic), ("O15.3", reap), ("O15.4", guards), ("O15.5", aggregation), ("O15.6", demand_storage)):
+    for rule, fn in (("O15.1", ownership), ("O15.2", release_atomic), ("O15.3", reap), ("O15.4", guards), ("O15.4", orderable_sort), ("O15.5", aggregation), ("O15.6", demand_storage)):
         chk.guard(rule, FACTORY, fn, chk, *res)
